@@ -267,7 +267,7 @@ def samp_e(repo: Repo) -> List[Ob]:
     gen_ok: Dict[str, Optional[bool]] = {}
     for g in ("measure_vector", "measure_matrix"):
         try:
-            got = summarise(repo.func(f"einsum_constructor:{g}"))
+            got = summarise(repo.func(f"einsum_constructor:{g}"), repo)
             gen_ok[g] = (got == spec("measure_matrix")) if g == "measure_matrix" else None
             gen_ok[g + ":got"] = got
         except Incomplete:
@@ -620,19 +620,26 @@ def measure_set(repo: Repo) -> List[Ob]:
                 for x in [b] + list(walk_no_nested(b)):
                     if isinstance(x, ast.Assign) and isinstance(x.targets[0], ast.Subscript) and src(x.targets[0].value) == "outcomes" and src(x.value) == "choice":
                         tgt = src(x.targets[0].slice).split(".")[-1]
-            if tgt and any(isinstance(y, ast.Name) and y.id in ("states", "separate_measurement") for y in ast.walk(n.test)):
-                guards.append((tgt, n))
+            test = n.test
+            if isinstance(test, ast.Name):
+                # a predicate hoisted into a local: use its (single) definition
+                from ..scope import single_def_value
+                v = single_def_value(fi.node, test.id)
+                if v is not None:
+                    test = v
+            if tgt and any(isinstance(y, ast.Name) and y.id in ("states", "separate_measurement") for y in ast.walk(test)):
+                guards.append((tgt, n, test))
     if len(guards) < 4:
         raise AnalysisError(f"MEASURE-SET: {len(guards)} sampling guards in Envelope.measure (floor 4)")
     cases = [(sep, st) for sep in (False, True) for st in ((), ("fock",), ("polarization",), ("fock", "polarization"), ("polarization", "fock"))]
     gi: Dict[str, int] = {}
-    for who, g in guards:
+    for who, g, gtest in guards:
         gi[who] = gi.get(who, 0) + 1
         key = f"sampling-guard:{who}#{gi[who]}"
         wrong = []
         unknown = False
         for sep, st in cases:
-            v = _eval_guard(g.test, {"separate_measurement": sep, "states": st})
+            v = _eval_guard(gtest, {"separate_measurement": sep, "states": st})
             if v is None:
                 unknown = True
                 break
